@@ -141,6 +141,14 @@ inline void point(const char* kind, const char* nm = nullptr, const std::string&
     if (!v2.empty()) { s += '.'; s += v2; }
     r->log.push_back(std::move(s));
 }
+// optional: the harness calls this right after an op of the running participant's script returned; it
+// appends '!' to the log entry of the step in which the op completed (model side: obs with o_v4 = 1 on a
+// non-CAS kind).  Lets an oracle see from the log which participants are inside an operation.
+inline void mark_done() {
+    Run* r = cur();
+    if (me() < 0 || !r || r->aborting || r->log.empty()) return;
+    r->log.back() += "!";
+}
 // the pause()/spin_wait()/yield() replacement: one stutter step of the spinning participant
 inline void spin() { point("sp"); }
 // for code templated on a Pause policy derive one in the harness AFTER including the header under
